@@ -36,11 +36,11 @@ def _local(zone, now):
 
 def _judge(a, out):
     zone, now, start, days = a
-    if not re.fullmatch(r"\d\d:\d\d", start) or not out.startswith("ok "):
+    if not re.fullmatch(r"\d?\d:\d?\d", start) or not out.startswith("ok "):
         return []
     lt = _local(zone, now)
     cur = lt.weekday()
-    sh, sm = int(start[:2]), int(start[3:])
+    sh, sm = map(int, start.split(":"))
     ahead = (lt.hour * 60 + lt.minute) < (sh * 60 + sm)
     mask = sum(2 ** (d + 1) for d in set(days))
     return [(f"c13 {cur} {mask} {int(ahead)} {C.ut(start)} {out[3:]}", "1")]
@@ -49,7 +49,7 @@ def _judge(a, out):
 def _nt(a, out):
     zone, now, start, days = a
     lt = _local(zone, now)
-    sh, sm = (int(start[:2]), int(start[3:])) if re.fullmatch(r"\d\d:\d\d", start) else (0, 0)
+    sh, sm = tuple(map(int, start.split(":"))) if re.fullmatch(r"\d?\d:\d?\d", start) else (0, 0)
     return (lt.weekday(), tuple(sorted(set(days))), (lt.hour * 60 + lt.minute) < sh * 60 + sm, zone in ("UTC",))
 
 
@@ -73,7 +73,7 @@ def _impl_remade(a):
     def f():
         try:
             first = SwitcherSchedule("3", True, {D[(i + 3) % 7] for i in days} or {D[0]}, "%02d:%02d" % ((int(start[:2]) + 7) % 24, 5), "23:59")
-            made = dataclasses.replace(first, start_time=start, days={D[i] for i in days}, schedule_id="4")
+            made = dataclasses.replace(first, start_time=start, days={D[i] for i in days}, schedule_id="4", recurring=bool((sum(days) + len(days)) % 2))
             made = pickle.loads(pickle.dumps(copy.deepcopy(copy.copy(made))))
             return "ok " + C.ut(made.display)
         except Exception as e:  # noqa
@@ -203,6 +203,10 @@ def streams(ctx):
     ctx.run_cases(NODAYS, "days-argument-left-out", nod, exhaustive=False, sample_every=max(1, len(nod) // 2))
     ctx.run_cases(LISTED, "listed-again-after-the-caller-changed-day-sets", polled[: len(polled) // 2], exhaustive=False)
     ctx.run_cases(NODAYS, "days-argument-left-out-again", nod[: len(nod) // 2], exhaustive=False)
+    # start times spelled without the leading zeros ("9:05", "14:5", "0:0"): the same instant as the padded spelling
+    unpadded = [(z, now, "%d:%d" % (int(st[:2]), int(st[3:])) if rng.random() < 0.5 else "%d:%02d" % (int(st[:2]), int(st[3:])), ds)
+                for (z, now, st, ds) in rng.sample(dst, min(len(dst), ctx.n(500, 5000)))]
+    ctx.run_cases(NEXT, "start-times-without-leading-zeros", unpadded, exhaustive=False, sample_every=199)
     ctx.run_cases(REMADE, "schedule-objects-re-made-by-replace-copy-and-pickle", rng.sample(dst, min(len(dst), ctx.n(300, 3000))), exhaustive=False,
                   sample_every=149)
     bad = [("UTC", 1.75e9, s, [0]) for s in ("7:5", "24:00", "x", "", "12:60", "1200")]
